@@ -186,7 +186,7 @@ def cached(rng):
 
 
 def rich(rng):
-    n = rng.choice(["dag", "dag-fallback", "gated", "loop", "nested", "nested", "mapped", "mapped", "cached", "waitdag"])
+    n = rng.choice(["dag", "dag-fallback", "gated", "loop", "nested", "nested", "mapped", "mapped", "cached", "waitdag", "compose", "compose"])
     if n == "nested":
         return nested(rng)
     if n == "mapped":
